@@ -1,8 +1,10 @@
 """Texts for MANIFEST.json (kept apart from props.py so that check configuration stays small)."""
 
-HOOK_COMMITS = []
+HOOK_COMMITS = ["8eb6fb7e966ea020d53ffa53eb464d5e25f195d3"]
 
 ENGINES = [
+    dict(name="hnsw", path="harness/cmd/h/eng_hnsw.go", serves_properties=["C01", "C07"],
+         kind_free_text="differential: real index.Hnsw vs Lean model, whole graph after every op in the order-independent regime; reference-map oracle + structural invariant in the wide regime"),
     dict(name="pq", path="harness/cmd/h/eng_pq.go", serves_properties=["C19"],
          kind_free_text="differential: real utils.PriorityQueue vs Lean model of container/heap, exact transcripts; bag oracle"),
 ]
@@ -10,6 +12,11 @@ ENGINES = [
 NOT_APPLICABLE = {}
 
 META = {
+    "C01": dict(
+        technique="Lean 4 proof (index invariant by induction over insert/remove/save+load histories; search soundness over abstract lawful queues, instantiated at the proved model of container/heap) + exact whole-graph differential tie",
+        text="search_ok_reachable (lean/Anndb/Props/C01.lean): for every history of inserts, removes (hence updates) and snapshot reloads from the empty index, every query and k, every configuration, every distance function and every lawful queue, search returns only live items with their current metadata and dist(query, current vector) as score, ascending, duplicate-free, at most k, non-empty on a non-empty index. good_run: the invariant (entry point present iff non-empty and live; tombstone iff not current incarnation) holds in every reachable state. The model is index/hnsw.go line by line; engine hnsw demands the identical graph and results from the real index after every operation in the order-independent regime and runs the property's predicate plus the structural invariant directly on the real index in the wide regime (ties, small beams, extension, M=16).",
+        note="Trusted: Lean kernel; goextract; the hnsw engine's generators; Go runtime. Not modelled: concurrent use (C13); NaN scores. The dataset-level merge is C09's.",
+    ),
     "C19": dict(
         technique="Lean 4 proof (heap invariant by induction over op sequences; bag refinement) + exact differential tie to utils.PriorityQueue + regenerated shape fact",
         text="Theorems in lean/Anndb/Props/C19.lean hold for every push/pop/reverse sequence, every priority (ties) and size: heap order is an invariant (inv_run), pop returns an extremal element of the bag and removes exactly it (pop_bag_best), draining is sorted and a permutation of the bag (drain_sorted_perm), reverse keeps the bag and flips the order (reverse_bag, reverse_independent). The model is container/heap's up/down/Init/Push/Pop verbatim; engine pq checks that the real queue and the model answer identically (tie order and slice layout included) on generated sequences, and a bag oracle judges the real answers directly.",
